@@ -465,6 +465,8 @@ def observe(tok, m1, cx):
                 up = P.run_float(m1, {**envf, w: envf[w] + h}).get(y)
                 dn = P.run_float(m1, {**envf, w: envf[w] - h}).get(y)
                 gv = qeval.float_eval(g, envf)
+                if not (math.isfinite(up) and math.isfinite(dn) and math.isfinite(gv)):
+                    continue  # overflow of the real exp at this point: nothing to compare
                 aux["checked"] += 1
                 if not P.close((up - dn) / (2 * h), gv, 1e-4):
                     aux["failed"].append({"wrt": w, "fd": (up - dn) / (2 * h), "gradient": gv})
@@ -515,6 +517,22 @@ def _has_ode(model):
     return model.statements.ode_system is not None
 
 
+def _ctx(name, hist, i):
+    """fields of the case record that known-finding keys refer to (functions of the history only)"""
+    tok = hist[i]
+    before = hist[:i]
+
+    def pending(setter, clearers):
+        # the last `setter` is not followed by one of `clearers`
+        idx = max((j for j, t in enumerate(before) if t == setter), default=-1)
+        return idx >= 0 and not any(t in clearers for t in before[idx + 1:])
+
+    return {"class": tok[0], "prev": hist[i - 1] if i else "", "solved": "P:SOLVE" in before, "periph": "S:PER" in before,
+            "depot": name == "mox2" or "S:FO" in before, "lag": "S:LAG" in before, "mu_before": "P:MU" in before,
+            "after_load": "P:LOAD" in before, "iov": "X:IOV" in before,
+            "fixed_omega": pending("D:ZEROOM", ("P:NONRANDOM", "P:CLEAN"))}
+
+
 def exec_history(arg):
     case, seed = arg
     name = case["model"]
@@ -524,12 +542,7 @@ def exec_history(arg):
     hist = case["hist"]
     for i, tok in enumerate(hist):
         cls = tok[0]
-        rec = {"model": name, "hist": hist[: i + 1], "act": tok, "class": tok[0], "prev": hist[i - 1] if i else "",
-               "has_ode": _has_ode(m), "solved": "P:SOLVE" in hist[:i], "periph": "S:PER" in hist[:i],
-               "depot": name == "mox2" or "S:FO" in hist[:i],
-               "fixed_omega": "D:ZEROOM" in hist[:i] and "P:NONRANDOM" not in hist[:i] and "P:CLEAN" not in hist[:i],
-               "lag": "S:LAG" in hist[:i], "mu_before": "P:MU" in hist[:i],
-               "after_load": "P:LOAD" in hist[:i]}
+        rec = {"model": name, "hist": hist[: i + 1], "act": tok, "has_ode": _has_ode(m), **_ctx(name, hist, i)}
         try:
             if cls in "SXD":
                 m2 = apply_other(name, tok, m)
@@ -558,6 +571,8 @@ def exec_history(arg):
             break
         ev["act"] = tok
         events.append(ev)
+        if tok == "P:LOAD" and list(m2.datainfo.names) != list(start_model(name).datainfo.names):
+            break  # judged at this step (the columns the statements read are gone); later steps would only repeat it
         m = m2
     return {"trace": {"model": name, "events": events}, "problems": problems, "aux": aux, "seed": seed}
 
@@ -756,9 +771,8 @@ def main(tier: str, seed: int) -> int:
                         continue
                     ev = traces[tid - 1]["events"][i]
                     h = c["hist"]
-                    rec = {"model": c["model"], "hist": h[: i + 1], "act": tok, "class": tok[0], "prev": h[i - 1] if i else "",
-                           "field": field, "outcome": outcome, "seed": s, "diff": _diff(ev, field),
-                           "mu_before": "P:MU" in h[:i], "after_load": "P:LOAD" in h[:i], "solved": "P:SOLVE" in h[:i]}
+                    rec = {"model": c["model"], "hist": h[: i + 1], "act": tok, "field": field, "outcome": outcome, "seed": s,
+                           "diff": _diff(ev, field), **_ctx(c["model"], h, i)}
                     v.violation(rec, f"{tok} after {c['hist'][:i]} on {c['model']}: {outcome} {json.dumps(rec['diff'])[:200]}")
     nontrivial = {json.dumps(c["hist"]) for c, _ in owners if len(c["hist"]) >= 2}
     v.add_coverage(
